@@ -15,7 +15,7 @@ func init() {
 		Title: "A route function runs only for requests its declaration admits",
 		Decided: "C01.a the route whose function runs is the route SelectRoute returned, and it is the one filters and handler observe (one variable feeds Function, wrapRequestResponse, ExtractParameters, the chain's documentation fields and Request.selectedRoute); Route.Function is invoked nowhere else; " +
 			"C01.b admission pipeline: for both routers every non-nil route a selector returns is an element of a collection whose every element passed the path match, all If conditions, the method equality, the Content-Type test and the Accept test, each applied to this request (guard-set dataflow over the candidate collections, across helper functions); " +
-			"C01.c in the token matcher a failed content comparison of a request token (literal, regex, custom verb, literal suffix) cannot reach a positive answer; C01.d siblings agree on token forms: a transformation the parameter binder applies to a URL value is applied by the matcher under the same template guards, a literal affix the binder strips is verified by the matcher, and a regex the route matcher enforces is enforced by the root-path scorer as well; C01.e header tokens are trimmed after they are cut, before they are compared (router side). C01.f a capture group of a package-level pattern is used to test the request token only with the pattern's literal context restored (the ':' of a custom verb); C01.g no call passes same-typed arguments crosswise to the callee's parameter names. C01.h inside the media-type matchers a positive answer has a reason in the declaration (equality with a declared element, nothing declared, no Content-Type sent, or - Accept only - a */* range of the request); C01.i the condition list of a route is not built on another object's backing array.",
+			"C01.c in the token matcher a failed content comparison of a request token (literal, regex, custom verb, literal suffix) cannot reach a positive answer; C01.d siblings agree on token forms: a transformation the parameter binder applies to a URL value is applied by the matcher under the same template guards, a literal affix the binder strips is verified by the matcher (and when the matcher takes a template token for a variable token because it contains '{' anywhere, it tests the request token against the text in front of the brace), and a regex the route matcher enforces is enforced by the root-path scorer as well; C01.e header tokens are trimmed after they are cut, before they are compared (router side). C01.f a capture group of a package-level pattern is used to test the request token only with the pattern's literal context restored (the ':' of a custom verb); C01.g no call passes same-typed arguments crosswise to the callee's parameter names. C01.h inside the media-type matchers a positive answer has a reason in the declaration (equality with a declared element, nothing declared, no Content-Type sent, or - Accept only - a */* range of the request); C01.i the condition list of a route is not built on another object's backing array.",
 		NotDecided: "whether a particular token sequence matches a particular template (value-level: the regexes, tokenizePath, the custom-verb regex); anchoring of {v:regex} matching in the Curly router (the property text does not fix it).",
 		Rules: []Rule{
 			{ID: "C01.a", Template: "T-PROV", Required: true, Run: ruleC01a,
@@ -929,6 +929,120 @@ func ruleC01d(c *Ctx) {
 			"the matcher tests the request token against the literal part of the template token", "the binder cuts literal text off a value the matcher never checked for it: `{var}.foo` admits any token, binds a truncated value and slices out of range on short ones")
 	} else {
 		c.note(p.fname(binder), "binder does not slice values", "-", "no affix handling")
+	}
+	// (2b) a template token that is not compared verbatim is a variable token. When the test that tells the two apart
+	// only asks whether the token contains '{' (not whether it starts with it), `v{version}` is a variable token too and
+	// its literal prefix has to be verified on the request token, like the suffix.
+	braceTest := func(v ssa.Value) (anchored, unanchored bool) {
+		seen := map[ssa.Value]bool{}
+		var visit func(v ssa.Value, depth int)
+		visit = func(v ssa.Value, depth int) {
+			if seen[v] || len(seen) > 200 {
+				return
+			}
+			seen[v] = true
+			for _, s := range p.sources(v, provDefault) {
+				if bo, ok := s.(*ssa.BinOp); ok {
+					visit(bo.X, depth)
+					visit(bo.Y, depth)
+					continue
+				}
+				call, ok := s.(*ssa.Call)
+				if !ok {
+					continue
+				}
+				if h := call.Call.StaticCallee(); h != nil && p.inModule(h) && h.Blocks != nil && depth < 1 && isBoolResult(call) {
+					for _, r := range returnsOf(h) {
+						for _, res := range r.Results {
+							visit(res, depth+1)
+						}
+					}
+					continue
+				}
+				n := calleeName(&call.Call)
+				if len(call.Call.Args) != 2 || mTaint[call.Call.Args[0]] {
+					continue
+				}
+				brace := false
+				if str, ok := constStr(call.Call.Args[1]); ok && str == "{" {
+					brace = true
+				}
+				if k, ok := constInt(call.Call.Args[1]); ok && k == '{' {
+					brace = true
+				}
+				if !brace {
+					continue
+				}
+				switch n {
+				case "strings.HasPrefix":
+					anchored = true
+				case "strings.Contains", "strings.ContainsRune", "strings.ContainsAny", "strings.Index", "strings.IndexByte", "strings.IndexRune", "strings.IndexAny", "strings.Count":
+					unanchored = true
+				}
+			}
+		}
+		visit(v, 0)
+		return
+	}
+	var looseAt ssa.Instruction
+	nLiteral := 0
+	mFacts := factsAt(m)
+	eachInstr(m, func(i ssa.Instruction) {
+		bo, ok := i.(*ssa.BinOp)
+		if !ok || (bo.Op != token.EQL && bo.Op != token.NEQ) || !isStringType(bo.X.Type()) {
+			return
+		}
+		if mTaint[bo.X] == mTaint[bo.Y] {
+			return
+		}
+		if _, isC := constStr(bo.X); isC {
+			return
+		}
+		if _, isC := constStr(bo.Y); isC {
+			return
+		}
+		nLiteral++
+		for f := range mFacts[i.Block()] {
+			if a, u := braceTest(f.Cond); u && !a {
+				looseAt = i
+			}
+		}
+	})
+	if looseAt != nil {
+		verifiesPrefix := false
+		scanPrefix := func(fn *ssa.Function, taint map[ssa.Value]bool) {
+			eachInstr(fn, func(i ssa.Instruction) {
+				call, ok := i.(*ssa.Call)
+				if !ok {
+					return
+				}
+				switch calleeName(&call.Call) {
+				case "strings.HasPrefix", "strings.CutPrefix":
+					if taint[call.Call.Args[0]] && !taint[call.Call.Args[1]] {
+						if _, isC := constStr(call.Call.Args[1]); !isC {
+							verifiesPrefix = true
+						}
+					}
+				}
+			})
+		}
+		scanPrefix(m, mTaint)
+		eachInstr(m, func(i ssa.Instruction) {
+			call, ok := i.(*ssa.Call)
+			if !ok || call.Call.StaticCallee() == nil || !p.inModule(call.Call.StaticCallee()) || call.Call.StaticCallee().Blocks == nil {
+				return
+			}
+			h := call.Call.StaticCallee()
+			for k, a := range call.Call.Args {
+				if mTaint[a] && k < len(h.Params) {
+					scanPrefix(h, valueTaint(p, h, h.Params[k]))
+				}
+			}
+		})
+		c.check(verifiesPrefix, p.fname(m), "a variable token's literal prefix is verified", p.ipos(looseAt),
+			"the matcher tests the request token against the text in front of '{'", "template tokens are compared verbatim only when they contain no '{' at all, so `v{version}` counts as a variable token, and nothing tests the request token for the literal text in front of the variable: /files/x1 is served by /files/v{version}")
+	} else if nLiteral > 0 {
+		c.ok(p.fname(m), "template tokens that do not start with '{' are compared verbatim", p.pos(m.Pos()), "no verbatim comparison of a request token is skipped on a test that merely looks for '{' somewhere in the template token")
 	}
 	// (3) the root scorer enforces the regex the route matcher enforces
 	regexHelper := func(fn *ssa.Function) *ssa.Function { return regexHelperOf(p, fn) }
